@@ -458,6 +458,9 @@ fn show_model(reply: &str, at: &Atoms) -> String {
 struct Outcome {
     real: String,
     model: String,
+    /// accepted entries: `validate` of the sealed entry, real and model
+    seal_real: String,
+    seal_model: String,
     oracle_accepts: bool,
     lines: Vec<String>,
 }
@@ -560,12 +563,27 @@ fn run_case(case: &Case, drv: &mut Driver) -> Outcome {
     // ---- real validate
     // an ill-typed class attribute trips a debug assertion in `as_iutf8_set` (debug builds only; a
     // release build returns None and `validate` answers NoClassFound): treated as that answer
-    let real = std::panic::catch_unwind(std::panic::AssertUnwindSafe(|| inv.validate(&sw as &dyn SchemaTransaction).map(|_| ())));
+    let entry_text = lines.last().unwrap().trim_start_matches("I ").to_string();
+    let mut seal_real = String::new();
+    let mut seal_model = String::new();
+    let real = std::panic::catch_unwind(std::panic::AssertUnwindSafe(|| {
+        inv.validate(&sw as &dyn SchemaTransaction).map(|valid| {
+            // accepted: seal it as the store paths do and validate the sealed entry once more
+            let sealed = valid.seal(&sw as &dyn SchemaTransaction);
+            let cid2 = Cid::new_lamport(nat_uuid(0x15FF), Duration::from_secs(1_700_000_100), &Duration::from_secs(1_700_000_000));
+            let trim = Cid::new_lamport(nat_uuid(0x15FE), Duration::from_secs(1), &Duration::from_secs(0));
+            let again = sealed.invalidate(cid2, &trim).validate(&sw as &dyn SchemaTransaction).map(|_| ());
+            seal_real = show_real(&again);
+        })
+    }));
+    if !seal_real.is_empty() {
+        seal_model = show_model(&drv.ask(&format!("L 7 {entry_text}")), &at);
+    }
     let real = match real {
         Ok(r) => show_real(&r),
         Err(_) => "err NoClassFound -".to_string(),
     };
-    Outcome { real, model, oracle_accepts: oracle_accepts(case, true), lines }
+    Outcome { real, model, oracle_accepts: oracle_accepts(case, true), lines, seal_real, seal_model }
 }
 
 fn main() {
@@ -583,7 +601,7 @@ fn main() {
             let inp = v.get("input").unwrap_or(&v);
             (inp["case"].as_u64().expect("case"), 1)
         }
-        None => (0, args.cases(6_000, 150_000)),
+        None => (0, args.cases(6_000, 100_000)),
     };
     let seed = match &args.replay {
         Some(f) => {
@@ -594,6 +612,14 @@ fn main() {
     };
     let mut model_fail = 0;
     let mut oracle_fail = 0;
+    // the regenerated store paths are the ones the harness exercises at server level, and the model
+    // finds each of them well ordered
+    for p in ["create", "modify_pre_apply+modify_apply", "internal_apply_writable", "batch_modify", "delete", "purge_recycled", "revive_recycled", "consumer_incremental_apply_entries", "consumer_refresh_create_entries"] {
+        let r = drv.ask(&format!("W {p}"));
+        if r != "1" {
+            rep.fail(Failure { kind: "impl-vs-model".into(), class: "store-path-not-well-ordered".into(), input: json!({"path": p}), expected: "1".into(), observed: r });
+        }
+    }
     for i in first..first + n {
         let mut rng = Rng::for_case(seed, i);
         let case = gen_case(&mut rng, heavy);
@@ -623,6 +649,26 @@ fn main() {
                 rep.fail(Failure { kind: "impl-vs-model".into(), class: "validate-reply-differs".into(), input: input.clone(), expected: out.model.clone(), observed: out.real.clone() });
             } else {
                 rep.count("impl-vs-model-more");
+            }
+        }
+        if out.seal_real != out.seal_model {
+            model_fail += 1;
+            if model_fail <= 5 {
+                rep.fail(Failure { kind: "impl-vs-model".into(), class: "sealed-entry-validate-differs".into(), input: input.clone(), expected: out.seal_model.clone(), observed: out.seal_real.clone() });
+            }
+        }
+        if !out.seal_real.is_empty() {
+            rep.count(&format!("sealed:{}", out.seal_real.split(' ').nth(1).unwrap_or("ok")));
+            // the statement on what the store paths would write: a sealed accepted entry of class object
+            // (the case of every real entry) still satisfies the schema
+            let has_object = case.entry.iter().any(|a| a.attr == a_class() && a.strings.contains(&c_name(EntryClass::Object)));
+            let object_std = case.classes.iter().any(|c| c.name == c_name(EntryClass::Object) && c.lists[0].contains(&a_lm()) && c.lists[0].contains(&a_ca()));
+            let cid_typed = [a_lm(), a_ca()].iter().all(|n| case.attrs.iter().any(|a| &a.name == n && a.syntax == SyntaxType::Cid));
+            if has_object && object_std && cid_typed && out.seal_real != "ok" {
+                let live = !case.entry.iter().any(|a| a.attr == a_class() && (a.strings.contains(&c_name(EntryClass::Recycled)) || a.strings.contains(&c_name(EntryClass::Conflict))));
+                if live {
+                    rep.fail(Failure { kind: "impl-vs-oracle".into(), class: "sealed-entry-nonconforming".into(), input: input.clone(), expected: "ok".into(), observed: out.seal_real.clone() });
+                }
             }
         }
         if (out.real == "ok") != out.oracle_accepts {
